@@ -25,6 +25,7 @@ Section Proofs.
   Notation execute := (execute A eqb).
   Notation execute_streamed := (execute_streamed A eqb).
   Notation pipeline_recv := (pipeline_recv A eqb).
+  Notation evaluate_racy := (evaluate_racy A eqb).
   Notation nofurther_sound := (nofurther_sound A).
   Notation complete := (complete A eqb).
   Notation nodupb := (nodupb A eqb).
@@ -469,6 +470,46 @@ Section Proofs.
     intros P check univ cands arrival err_after Hchk Hc Hok o Hu HP.
     unfold ListObjects.execute_streamed in *. destruct err_after as [k|]; cbn [fst snd] in *; [discriminate|].
     eapply lo_complete; eassumption.
+  Qed.
+
+  (* ---- the select/cancel race only removes objects: soundness and duplicate-freedom survive ---- *)
+  Lemma NoDup_filter : forall (f : A -> bool) (l : list A), NoDup l -> NoDup (filter f l).
+  Proof.
+    intros f l. induction l as [|x l IH]; simpl; intros Hnd.
+    - constructor.
+    - inversion Hnd; subst. destruct (f x).
+      + constructor; [intro Hin; apply filter_In in Hin; tauto | apply IH; assumption].
+      + apply IH; assumption.
+  Qed.
+
+  Theorem evaluate_racy_incl : forall (check : A -> bool) cands limit arrival drop o,
+    In o (evaluate_racy cands check limit arrival drop) -> In o (evaluate cands check limit arrival).
+  Proof.
+    intros check cands limit arrival drop o Hin. unfold ListObjects.evaluate_racy in Hin.
+    destruct limit; [exact Hin|].
+    destruct (Nat.ltb _ _); [apply filter_In in Hin; apply Hin | exact Hin].
+  Qed.
+
+  Theorem evaluate_racy_sound_nodup : forall (P check : A -> bool) cands limit arrival drop,
+    (forall o, check o = true -> P o = true) ->
+    nofurther_sound P cands = true ->
+    NoDup (evaluate_racy cands check limit arrival drop) /\
+    forall o, In o (evaluate_racy cands check limit arrival drop) -> P o = true.
+  Proof.
+    intros P check cands limit arrival drop Hchk Hnf. split.
+    - unfold ListObjects.evaluate_racy. destruct limit; [apply lo_nodup|].
+      destruct (Nat.ltb _ _); [apply NoDup_filter|]; apply lo_nodup.
+    - intros o Hin. apply evaluate_racy_incl in Hin. eapply lo_sound; eassumption.
+  Qed.
+
+  Theorem evaluate_racy_no_drop : forall (check : A -> bool) cands limit arrival,
+    evaluate_racy cands check limit arrival (fun _ => false) = evaluate cands check limit arrival.
+  Proof.
+    intros. unfold ListObjects.evaluate_racy. destruct limit; [reflexivity|].
+    destruct (Nat.ltb _ _); [|reflexivity].
+    generalize (evaluate cands check (S limit) arrival). intros l.
+    induction l as [|x l IH]; [reflexivity|].
+    simpl. f_equal. exact IH.
   Qed.
 
   (* ---- the pipeline's output stage: DeduplicatingReceiver + the Recv loop of Execute ---- *)
